@@ -1,5 +1,140 @@
-(* C17 - placeholder statement until the proofs are in. *)
-From OV Require Import Base.CInt Emu.MarkDefs.
-Theorem C17_runtime_total : forall s c, (exists s', rt_call s c = Ret s') \/ rt_call s c = Die.
-Proof. intros. destruct (rt_call s c); [left; eexists; reflexivity|right; reflexivity]. Qed.
-Print Assumptions C17_runtime_total.
+(* C17 - Mark API end-to-end: marks set at runtime appear as the documented timelines.
+   Runtime model: rt_call (src/rt/ovni.c ovni_mark_type/label/push/pop/set); emulator: merge_def /
+   decode_mark / mark_chans (src/emu/ovni/mark.c).  The mark channels are ordinary channel specs of the
+   emulator-core model (stack or single, duplicates allowed, tracked ACTIVE on thread rows and RUNNING
+   on CPU rows, PRV type 100 + mark type, SKIPDUPNULL), so the timeline theorem of C06 applies to them. *)
+From Coq Require Import ZArith List Bool.
+From OV Require Import Base.CInt Emu.EmuCoreDefs Emu.DecodeDefs Emu.MarkDefs Proofs.EmitProofs Proofs.EmuCoreProofs
+  Proofs.EmuCoreWf Proofs.MarkProofs Proofs.StackProofs Emu.StackSpecDefs.
+Import ListNotations.
+Local Open Scope Z_scope.
+
+(* --- refused at run time *)
+Theorem C17_runtime_zero_value : forall s t,
+  rt_call s (MPush t 0) = Die /\ rt_call s (MPop t 0) = Die /\ rt_call s (MSet t 0) = Die.
+Proof. exact rt_zero_value_refused. Qed.
+Print Assumptions C17_runtime_zero_value.
+
+Theorem C17_runtime_type_range : forall s t stack title, (t < 0 \/ 100 <= t) -> rt_call s (MType t stack title) = Die.
+Proof. exact rt_type_range_refused. Qed.
+Print Assumptions C17_runtime_type_range.
+
+Theorem C17_runtime_empty_title : forall s t stack,
+  rt_call s (MType t stack None) = Die /\ rt_call s (MType t stack (Some [])) = Die.
+Proof. exact rt_empty_title_refused. Qed.
+Print Assumptions C17_runtime_empty_title.
+
+Theorem C17_runtime_redefinition : forall s t stack title d,
+  find_def (rt_defs s) t = Some d -> rt_call s (MType t stack title) = Die.
+Proof. exact rt_redefinition_refused. Qed.
+Print Assumptions C17_runtime_redefinition.
+
+Theorem C17_runtime_label_of_undefined_type : forall s t v l,
+  find_def (rt_defs s) t = None -> rt_call s (MLabel t v l) = Die.
+Proof. exact rt_label_undefined_type_refused. Qed.
+Print Assumptions C17_runtime_label_of_undefined_type.
+
+(* --- an accepted call writes exactly its event (push/pop/set) or only metadata (type/label) *)
+Theorem C17_runtime_emits : forall s c s', rt_call s c = Ret s' ->
+  match c with
+  | MPush t v => rt_events s' = rt_events s ++ [(91, v, t)] /\ rt_defs s' = rt_defs s /\ v <> 0
+  | MPop t v => rt_events s' = rt_events s ++ [(93, v, t)] /\ rt_defs s' = rt_defs s /\ v <> 0
+  | MSet t v => rt_events s' = rt_events s ++ [(61, v, t)] /\ rt_defs s' = rt_defs s /\ v <> 0
+  | _ => rt_events s' = rt_events s
+  end.
+Proof. exact rt_emit. Qed.
+Print Assumptions C17_runtime_emits.
+
+(* --- definitions of different threads: conflicts are refused in emulation, agreement merges *)
+Theorem C17_title_conflict : forall acc d m,
+  0 <= md_type d < 100 -> find_mt acc (md_type d) = Some m -> mt_title m <> md_title d -> merge_def acc d = None.
+Proof. exact merge_title_conflict. Qed.
+Print Assumptions C17_title_conflict.
+
+Theorem C17_chan_type_conflict : forall acc d m,
+  find_mt acc (md_type d) = Some m -> mt_stack m <> md_stack d -> merge_def acc d = None.
+Proof. exact merge_chan_type_conflict. Qed.
+Print Assumptions C17_chan_type_conflict.
+
+Theorem C17_label_conflict : forall acc d m v s s',
+  find_mt acc (md_type d) = Some m -> lookup_label (mt_labels m) v = Some s' -> In (v, s) (md_labels d) -> s <> s' ->
+  merge_def acc d = None.
+Proof. exact merge_label_conflict. Qed.
+Print Assumptions C17_label_conflict.
+
+Theorem C17_conflict_fails_whole_merge : forall ds1 d ds2 acc acc',
+  merge_defs acc ds1 = Some acc' -> merge_def acc' d = None -> merge_defs acc (ds1 ++ d :: ds2) = None.
+Proof. exact merge_defs_prefix_none. Qed.
+Print Assumptions C17_conflict_fails_whole_merge.
+
+Theorem C17_agreeing_definitions_merge : forall acc d m,
+  0 <= md_type d < 100 ->
+  find_mt acc (md_type d) = Some m -> mt_title m = md_title d -> mt_stack m = md_stack d ->
+  (forall v s, In (v, s) (md_labels d) -> lookup_label (mt_labels m) v = Some s) ->
+  merge_def acc d = Some acc.
+Proof. exact merge_agreeing_definition. Qed.
+Print Assumptions C17_agreeing_definitions_merge.
+
+(* --- refused in emulation: undefined type, zero value, wrong payload, push on single / set on stack,
+       mismatched pop (the stack theorem of C08 with duplicates allowed) *)
+Theorem C17_emu_undefined_type : forall cs v p,
+  length p = 12%nat -> chan_pos cs MARK_MODEL (le_i32 p 8) = None -> decode_mark cs v p = EvBad E_UNKNOWN.
+Proof. exact decode_mark_undefined_type. Qed.
+Print Assumptions C17_emu_undefined_type.
+
+Theorem C17_emu_zero_value : forall cs v p k,
+  length p = 12%nat -> chan_pos cs MARK_MODEL (le_i32 p 8) = Some k -> le_i64 p 0 = 0 -> decode_mark cs v p = EvBad E_PAYLOAD.
+Proof. exact decode_mark_zero_value. Qed.
+Print Assumptions C17_emu_zero_value.
+
+Theorem C17_emu_push_on_single : forall sp r v, cs_stack sp = false -> exists e, raw_apply sp r PUSH (Some v) = Err e.
+Proof. exact push_on_single_refused. Qed.
+Print Assumptions C17_emu_push_on_single.
+
+Theorem C17_emu_set_on_stack : forall sp r v, cs_stack sp = true -> exists e, raw_apply sp r SET v = Err e.
+Proof. exact set_on_stack_refused. Qed.
+Print Assumptions C17_emu_set_on_stack.
+
+Theorem C17_emu_pops_must_match : forall sp evs,
+  cs_stack sp = true ->
+  (exists r', chan_run sp (empty_stack_chan sp) evs = Some r') <-> (exists o, hist evs o /\ entries_ok (cs_dup sp) evs).
+Proof. exact stack_channel_iff. Qed.
+Print Assumptions C17_emu_pops_must_match.
+
+(* --- where they are shown: every mark channel is tracked ACTIVE on thread rows and RUNNING on CPU rows,
+       under PRV type 100 + mark type; C06_tracked_rows then gives the rows at every instant *)
+Theorem C17_mark_channels : forall ms sp, In sp (mark_chans ms) ->
+  cs_thtrack sp = TRACK_ACT /\ cs_cputrack sp = TRACK_RUN /\ cs_flags sp = PRV_SKIPDUPNULL /\ cs_dup sp = true /\
+  exists m, In m ms /\ cs_type sp = 100 + mt_type m /\ cs_stack sp = mt_stack m.
+Proof. exact mark_chans_props. Qed.
+Print Assumptions C17_mark_channels.
+
+Theorem C17_rows : forall sx evs1 evs2 st tl,
+  types_ok sx -> any_init_ok sx ->
+  run_from sx (init sx) (evs1 ++ evs2) = Ok (st, tl) ->
+  exists st1 tl1, run_from sx (init sx) evs1 = Ok (st1, tl1) /\
+    forall k, (k < length (s_chans sx))%nat ->
+      let sp := spec_of sx k in
+      let ls := lines_of tl1 in
+      (forall t, (t < length (s_threads sx))%nat ->
+         shown ls (false, t, cs_type sp) =
+         printed (cs_flags sp) (if mode_ok (cs_thtrack sp) (thread_state_of st1 t) then raw_read sp (raw_of st1 t k) else None)) /\
+      (forall c, (c < length (s_cpus sx))%nat ->
+         match th_running st1 c with
+         | Some t => shown ls (true, c, cs_type sp) = printed (cs_flags sp) (raw_read sp (raw_of st1 t k))
+         | None => shown ls (true, c, cs_type sp) = printed (cs_flags sp) (cs_cpudef sp) \/ shown ls (true, c, cs_type sp) = 0
+         end).
+Proof. exact tracked_rows. Qed.
+Print Assumptions C17_rows.
+
+(* non-vacuity: two threads define type 3 identically (second adds a label), a third conflicts *)
+Definition d1 := {| md_type := 3; md_title := [112]; md_stack := true; md_labels := [(1, [97])] |}.
+Definition d2 := {| md_type := 3; md_title := [112]; md_stack := true; md_labels := [(1, [97]); (2, [98])] |}.
+Definition d3 := {| md_type := 3; md_title := [113]; md_stack := true; md_labels := [] |}.
+Example C17_ex_merge : merge_threads [[d1]; [d2]] = Some [{| mt_type := 3; mt_title := [112]; mt_stack := true; mt_labels := [(1, [97]); (2, [98])] |}].
+Proof. vm_compute. reflexivity. Qed.
+Example C17_ex_conflict : merge_threads [[d1]; [d3]] = None.
+Proof. vm_compute. reflexivity. Qed.
+Example C17_ex_types_ok :
+  types_okb (mk_chans [M_OVNI; M_NOSV] ++ mark_chans [{| mt_type := 3; mt_title := [112]; mt_stack := true; mt_labels := [] |}]) = true.
+Proof. vm_compute. reflexivity. Qed.
